@@ -3,26 +3,26 @@ SPEC = {
              {"kind": "dissect", "quick": 40000, "thorough": 600000}],
     "rule": "sFlow v5 datagrams encoded from an abstract datagram by the harness's own XDR encoder: 0..5 samples of "
             "flow / counter / expanded / unknown / enterprise type, 0..4 records each (raw header Ethernet(+-802.1Q)/IPv4/IPv6 x "
-            "TCP/UDP/ICMP(1 and 58 after either network layer), all 24 layer combinations incl. header protocol 11/12, every header field over its full range incl. the version nibble, header lengths up to 1500 and XDR padding, extended switch, extended router v4/v6, the six "
+            "TCP/UDP/ICMP(1 and 58 after either network layer), all 24 layer combinations incl. header protocol 11/12, every header field over its full range incl. the version nibble, IPv4 options in a quarter of the IPv4 headers (IHL 6..15: random octets, real options, octets that read as a transport header), header lengths up to 1500 and XDR padding, extended switch, extended router v4/v6, the six "
             "counter layouts, unknown formats), IPv4/IPv6 agents; ~12% field-aware mutations (truncation, bit flip, boundary "
             "values in length/count/format words, extended-router lengths, truncated sampled headers); kind dissect: "
-            "packet.Decoder alone on encoded headers, 30% truncated/perturbed. non-trivial = the implementation returned a "
+            "packet.Decoder alone on encoded headers, 30% truncated/perturbed (incl. an IPv4 header-length nibble 0..15 that no longer matches the octets). non-trivial = the implementation returned a "
             "datagram/packet (not an error); distinct = distinct case line",
     "assumptions": ["Go semantics of bytes.Reader / encoding/binary.Read / slices as transcribed in Vflow.Model.Sflow and Vflow.Model.Packet",
-                    "well-formed sampled headers: IPv4 IHL = 5, TCP reserved bits 0, first IPv6 next header TCP/UDP/ICMPv6 "
+                    "well-formed sampled headers: IPv4 options 0..40 octets in multiples of 4 (IHL 5..15, any content), TCP reserved bits 0, first IPv6 next header TCP/UDP/ICMPv6 "
                     "(what the packet structs can represent)"],
 }
 META = {
     "text": "Lean theorems about the executable model of sflow/*.go and packet/*.go (round trip decode (encode d) = expected d "
             "from the leaves upward: field lists, the six counter layouts, extended switch/router, raw header with XDR padding, "
             "flow/counter samples, unknown samples/records skipped by length, header with v4/v6 agent; dissector field-extraction "
-            "theorems per layer, composed in dissect_encodeHeader for every Ethernet(+-802.1Q)|none x IPv4|IPv6 x TCP|UDP|ICMP "
+            "theorems per layer, composed in dissect_encodeHeader for every Ethernet(+-802.1Q)|none x IPv4 (any options, IHL 5..15)|IPv6 x TCP|UDP|ICMP "
             "combination, and decode_encode' over abstract headers needing only well-formedness); the model is tied to the code by byte-for-byte comparison of json.Marshal output on generated "
             "datagrams, and the code is checked against the abstract datagram each case was encoded from.",
     "ref": "DESIGN.md §6 C07 / C18",
     "note": "Trusted: Lean kernel; hand-written model (Go reader/slice semantics transcribed); harness generator, wire encoder "
-            "and oracle bound what the tie sees. IPv4 options (IHL > 5) and IPv6 extension headers are outside the modelled "
-            "well-formed domain.",
+            "and oracle bound what the tie sees. IPv6 extension headers are outside the modelled well-formed domain "
+            "(IPv4 options are inside it since F17).",
     "technique": "Lean 4 round-trip proofs over a wire encoder + differential correspondence with sflow.SFDecode / packet.Decoder "
                  "+ abstract-datagram oracle",
 }
